@@ -215,6 +215,9 @@ static int cmd_run(int argc, char **argv, bool grid)
 				}
 			} else {
 				viol++;
+				// (the reruns below count as this seed being in flight again, should the watchdog fire in them)
+				printf("BEGIN %llu\n", s);
+				fflush(stdout);
 				// gate 1: the same plan twice in this process
 				RunResult r2 = run_plan(plan, *chk, lib);
 				bool det = r2.has_violation && r2.v.cls == r.v.cls && r2.fp == r.fp;
